@@ -93,35 +93,75 @@ Proof.
   rewrite Nat2Z.id. rewrite Forall_forall in HF. apply HF. apply nth_In. exact Hk.
 Qed.
 
+Lemma nth_firstn_lt (l : list Z) : forall (n k : nat), (k < n)%nat -> nth k (firstn n l) 0 = nth k l 0.
+Proof.
+  induction l as [|a l IH]; intros n k H.
+  - rewrite firstn_nil. reflexivity.
+  - destruct n as [|n]; [lia|]. destruct k as [|k]; [reflexivity|]. simpl. apply IH. lia.
+Qed.
+
+Lemma nthZ_firstn (l : list Z) (n k : nat) : (k < n)%nat -> nthZ (firstn n l) (Z.of_nat k) = nthZ l (Z.of_nat k).
+Proof.
+  intros H. unfold nthZ. destruct (Z.ltb_spec (Z.of_nat k) 0); [lia|]. rewrite Nat2Z.id.
+  apply nth_firstn_lt. exact H.
+Qed.
+
+Lemma Forall_firstn {A} (P : A -> Prop) n l : Forall P l -> Forall P (firstn n l).
+Proof.
+  revert n. induction l as [|a l IH]; intros n H.
+  - rewrite firstn_nil. constructor.
+  - destruct n; [constructor|]. simpl. inversion H; subst. constructor; auto.
+Qed.
+
+(* the library hashes the name as stored: at most 30 bytes *)
 Theorem hash_gen : forall (name : list Z) (intl : Z) (fuel : nat),
-  is_byte_string name -> Z.of_nat (length name) < 2 ^ 32 -> (length name < fuel)%nat ->
-  c_adfGetHashValue fuel name intl = Some (hash_name (negb (intl =? 0)) name).
+  is_byte_string name -> Z.of_nat (length name) < 2 ^ 32 -> (31 < fuel)%nat ->
+  c_adfGetHashValue fuel name intl = Some (hash_name (negb (intl =? 0)) (trunc30 name)).
 Proof.
   intros name intl fuel Hb Hlen Hf. unfold c_adfGetHashValue. cbv zeta.
   set (il := negb (intl =? 0)).
-  set (len := cast_u32 (c_strlen name)).
-  assert (Elen : len = Z.of_nat (length name)).
-  { unfold len, c_strlen. apply cast_u32_id. lia. }
+  set (t := trunc30 name).
+  assert (Ht : length t = Nat.min 30 (length name)) by (unfold t, trunc30; apply firstn_length).
+  assert (Hbt : is_byte_string t) by (unfold t, trunc30; apply Forall_firstn; exact Hb).
+  set (len := if cast_u32 (c_strlen name) <? 30 then cast_u32 (c_strlen name) else 30).
+  assert (Elen : len = Z.of_nat (length t)).
+  { unfold len, c_strlen. rewrite cast_u32_id by lia. rewrite Ht.
+    destruct (Z.ltb_spec (Z.of_nat (length name)) 30); lia. }
   loop_inv
-    (fun '((u, h, i) : Z * Z * Z) => exists k : nat, i = Z.of_nat k /\ (k <= length name)%nat /\
-        fold_left hash_step (fold_name il (skipn k name)) h = fold_left hash_step (fold_name il name) len)
-    (fun '((_, _, i) : Z * Z * Z) => (length name - Z.to_nat i)%nat).
+    (fun '((u, h, i) : Z * Z * Z) => exists k : nat, i = Z.of_nat k /\ (k <= length t)%nat /\
+        fold_left hash_step (fold_name il (skipn k t)) h = fold_left hash_step (fold_name il t) len)
+    (fun '((_, _, i) : Z * Z * Z) => (length t - Z.to_nat i)%nat).
   - intros [[u h] i] (k & -> & Hk & Hfold) Hc. rewrite Z.ltb_lt in Hc. rewrite Elen in Hc.
-    assert (Hk' : (k < length name)%nat) by lia.
+    assert (Hk' : (k < length t)%nat) by lia.
     split; [|rewrite cast_u32_id by lia; lia].
     exists (S k). split; [rewrite cast_u32_id by lia; lia|]. split; [lia|].
-    rewrite (skipn_nthZ name k Hk') in Hfold. simpl fold_name in Hfold. simpl fold_left in Hfold.
+    rewrite (skipn_nthZ t k Hk') in Hfold. simpl fold_name in Hfold. simpl fold_left in Hfold.
     rewrite <- Hfold. f_equal. rewrite hash_step_gen. f_equal.
-    pose proof (Forall_nthZ _ name k Hb Hk') as Hr.
-    fold il. destruct il; simpl.
+    pose proof (Forall_nthZ _ t k Hbt Hk') as Hr.
+    assert (En : nthZ name (Z.of_nat k) = nthZ t (Z.of_nat k)).
+    { unfold t, trunc30. symmetry. apply nthZ_firstn. lia. }
+    rewrite En. fold il. destruct il; simpl.
     + apply upper_tables. exact Hr.
     + apply toupper_table. exact Hr.
   - exists 0%nat. split; [reflexivity|]. split; [lia|]. reflexivity.
   - simpl. lia.
   - destruct Hloop as ([[u h] i] & Heq & (k & -> & Hk & Hfold) & Hc).
     rewrite Heq. rewrite Z.ltb_ge in Hc. rewrite Elen in Hc.
-    assert (k = length name) by lia. subst k. rewrite skipn_all in Hfold. simpl in Hfold.
+    assert (k = length t) by lia. subst k. rewrite skipn_all in Hfold. simpl in Hfold.
     subst h. unfold hash_name, hash_folded, fold_name. rewrite map_length. rewrite Elen. reflexivity.
+Qed.
+
+Theorem hash_long_names : forall (name : list Z) (intl : Z) (fuel : nat),
+  is_byte_string name -> Z.of_nat (length name) < 2 ^ 32 -> (31 < fuel)%nat ->
+  c_adfGetHashValue fuel name intl = c_adfGetHashValue fuel (trunc30 name) intl.
+Proof.
+  intros name intl fuel Hb Hl Hf.
+  rewrite (hash_gen name intl fuel Hb Hl Hf).
+  assert (Hb' : is_byte_string (trunc30 name)) by (apply Forall_firstn; exact Hb).
+  assert (Hl' : Z.of_nat (length (trunc30 name)) < 2 ^ 32).
+  { unfold trunc30. rewrite firstn_length. lia. }
+  rewrite (hash_gen (trunc30 name) intl fuel Hb' Hl' Hf).
+  unfold trunc30. rewrite firstn_firstn. reflexivity.
 Qed.
 
 Theorem hash_depends_on_fold intl a b :
